@@ -11,6 +11,7 @@ import nixio
 
 UUID_RE = re.compile(r"[0-9a-f]{8}-[0-9a-f]{4}-[0-9a-f]{4}-[0-9a-f]{4}-[0-9a-f]{12}")
 GOOD = "12345678-1234-4678-9234-56781234abcd"
+DUP = "an id another entity of the file already has"
 
 
 def wf(i):
@@ -21,7 +22,7 @@ OIDS = [("a canonical UUID", GOOD), ("a UUID followed by a newline", GOOD + "\n"
         ("a UUID followed by a blank", GOOD + " "), ("a UUID followed by a tab", GOOD + "\t"), ("a UUID one digit short", GOOD[:-1]),
         ("a UUID with a non-hex digit", "g" + GOOD[1:]), ("a UUID followed by more digits", GOOD + "00"),
         ("two UUIDs on two lines", GOOD + "\n" + GOOD), ("the empty text", ""), ("a word", "not-an-id"), ("a number", 5),
-        ("None", None)]
+        ("None", None), (DUP, GOOD)]
 WHERE = ["File.create_section", "Section.create_section", "Section.create_property"]
 
 
@@ -35,6 +36,9 @@ def main():
             f = nixio.File.open(path, nixio.FileMode.Overwrite)
             top = f.create_section("top", "t")
             other = top.create_section("other", "t")
+            taken = [top.id, other.id]
+            if label == DUP:
+                taken.append(other.create_section("first", "t", oid=GOOD).id)
             try:
                 if where == "File.create_section":
                     ent, cont = f.create_section("n", "t", oid=oid), (lambda ff: ff.sections)
@@ -51,7 +55,7 @@ def main():
             rec["id"] = repr(i)
             if not wf(i):
                 rec["problems"].append("the new entity's id %r is not a well-formed UUID" % (i,))
-            if i in (top.id, other.id):
+            if i in taken:
                 rec["problems"].append("the new entity's id equals another id of the file")
             try:
                 c = cont(f)
